@@ -259,7 +259,7 @@ def gen_cases(ctx, extra_bias=None):
     raw_special = ['{"name":"setConf","args":["rpcpermissions","%s:R\\u005cx","dGVzdDIK:W"]}' % cert,
                    '{"name":"appendConf","args":["rpcpermissions","%s:R\\u005c\\u005cx"]}' % cert,
                    '{"name":"setConf","args":["p2pwhite","{\\"address\\":\\"1.2.3.4\\",\\"cidr\\":\\"\\\\\\"}"]}']
-    picks = special if not quick else special[:4] + rng.sample(special[4:], 3)
+    picks = special if not quick else special[:3] + rng.sample(special[3:], 2)
     for sp in picks:
         for cmdname in ("setConf", "appendConf"):
             gi = newg()
@@ -345,18 +345,20 @@ def gen_cases(ctx, extra_bias=None):
     cases.append(mk(gi, "aergo.system", '{"Name":"v1stake"}', badhash=True))
     cases.append(mk(gi, "aergo.system", '{"Name":"v1stake","Args":["' + "x" * (210 * 1024) + '"]}'))
     # payload sizes around types.TxMaxSize (200 KiB of serialised tx): undecodable filler keeps the case small for the model
-    for fill in (200 * 1024 - 400, 200 * 1024 - 200, 200 * 1024 - 150, 200 * 1024 - 100, 200 * 1024, 200 * 1024 + 1, 300 * 1024):
+    fills = (200 * 1024 - 400, 200 * 1024 - 200, 200 * 1024 - 150, 200 * 1024 - 100, 200 * 1024, 200 * 1024 + 1, 300 * 1024)
+    for fill in (fills if not quick else fills[:3] + fills[5:6]):
         cases.append(mk(newg(), "aergo.system", "{", payfill=fill))
         cases.append(mk(newg(), "aergo.name", "x", payfill=fill, ty=rng.choice([GOV, TRANSFER, CALL, DEPLOY])))
     # amount / gas price byte fields: boundary values, leading zeros, very long fields (big.Int.SetBytes is unsigned)
     be = lambda n: n.to_bytes((n.bit_length() + 7) // 8 or 1, "big").hex()
-    for raw in (be(MAXAER), be(MAXAER + 1), be(MAXAER - 1), "00" * 40 + be(5), "ff" * 33, "80" + "00" * 32, "ff" * 100000, ""):
+    raws = (be(MAXAER), be(MAXAER + 1), be(MAXAER - 1), "00" * 40 + be(5), "ff" * 33, "80" + "00" * 32, "", "ff" * 100000)
+    for raw in (raws if not quick else raws[:4] + raws[6:7]):
         cases.append(mk(newg(), "aergo.system", '{"Name":"v1stake"}', amtraw=raw))
         cases.append(mk(newg(), "aergo.system", '{"Name":"v1stake"}', priceraw=raw))
         cases.append(mk(newg(), "aergo.name", '{"Name":"v1createName","Args":["abcdefghijkl"]}', amtraw=raw, ty=rng.choice([GOV, TRANSFER])))
     for ty in (-1, 8, 9, 100, 2 ** 31 - 1):
         cases.append(mk(newg(), "aergo.system", '{"Name":"v1stake"}', ty=ty))
-    for n in (0, 1, 12, 32, 33, 34, 64, 1000):
+    for n in ((0, 1, 12, 32, 33, 34, 64, 1000) if not quick else (0, 12, 33, 34)):
         cases.append(mk(newg(), "aergo.system", '{"Name":"v1stake"}', acctlen=n or None))
         cases.append(mk(newg(), "aergo.system", '{"Name":"v1stake"}', rcptraw="61" * n if n else None, ty=rng.choice([GOV, TRANSFER, NORMAL])))
     # JSON number formats, duplicate keys, depth limits of encoding/json
@@ -601,6 +603,44 @@ def pool_differential(ctx, poolbin, cases, obs):
     return fails, diffs, len(pcs)
 
 
+def check_hypotheses(cases, obs):
+    """The hypotheses of the reachable-state theorems, tested on the real functions' results of this run.
+    Returns a list of (what, replay) for every observation contradicting one."""
+    bad = []
+
+    def entries(rawhex):
+        raw = bytes.fromhex(rawhex)
+        es, off = [], 0
+        while off < len(raw):
+            size = int.from_bytes(raw[off:off + 8], "little")
+            es.append(raw[off + 8:off + 8 + size])
+            off += 8 + size
+        return es
+
+    for i, (c, o) in enumerate(zip(cases, obs)):
+        for r in o.get("strs") or []:
+            s = bytes.fromhex(r["s"])
+            # JSON strings decoded by encoding/json are valid UTF-8: the round trip must hold for all of them
+            if not r["json_rt"]:
+                bad.append(("encoding/json round trip of a one-element string list fails (hypothesis Hjson)", {"case": i, "string": r["s"]}))
+            if r["addr_ok"] and len(bytes.fromhex(r["addr"])) > 33:
+                bad.append(("types.DecodeAddress returned more than 33 bytes (hypothesis Hdec)", {"case": i, "string": r["s"], "addr": r["addr"]}))
+            if r["b58_ok"] and r["b58_len"] != len(bytes.fromhex(r["b58_hex"])):
+                bad.append(("base58.Decode length views disagree (hypothesis Hb58)", {"case": i, "string": r["s"]}))
+        for view in (o["view"], o["post"]):
+            if len(view["staking"]) // 2 >= 47:
+                bad.append(("a staking record of 47 bytes or more (hypothesis upd_bounded)", {"case": i, "staking": view["staking"]}))
+            for k, raw in view["results"].items():
+                if len(raw) // 2 >= 2 ** 32:
+                    bad.append(("a vote-result list of 4 GiB (hypothesis upd_small)", {"case": i}))
+                if k == "voteBP":
+                    for e in entries(raw):
+                        if len(e) >= 78 or len(e) < 39:
+                            bad.append(("a BP vote-result entry that is not a 39-byte peer id + short amount (hypotheses upd_bounded / genesis)",
+                                        {"case": i, "entry": e.hex()}))
+    return bad
+
+
 def gen_sites(ctx):
     """build and run the translator on ctx.repo -> coq/Gen/PanicSites.v"""
     src = os.path.join(ctx.verif, "gen", "gen_panicsites")
@@ -673,6 +713,7 @@ def run(ctx):
                 break
     for key, what, rep in pool_fail:
         pred_fail.append((key, what, rep))
+    hyp_bad = check_hypotheses(cases, obs)
     # ---- correspondence
     mism, out = eval_cases(ctx, cases, obs, "cases")
     corr_broken = None
@@ -684,6 +725,9 @@ def run(ctx):
         if rest:
             corr_broken = ("model/implementation differ on outcome class or enterprise post-state",
                            [replay_of(cases, obs, i) for i in rest[:3]])
+    if hyp_bad and not corr_broken:
+        corr_broken = ("a hypothesis of the reachable-state theorems is contradicted by the real code: " + hyp_bad[0][0],
+                       [dict(h[1], what=h[0], tx=replay_of(cases, obs, h[1]["case"])["sequence"][-1]) for h in hyp_bad[:3]])
     if pool_diff and not corr_broken:
         corr_broken = ("the real mempool.verifyTx / validateTx outcome differs from the modelled admission (engine 1) on the same state and transaction",
                        pool_diff[:3])
@@ -730,6 +774,8 @@ def run(ctx):
         "executed_success": sum(1 for o in obs if o["exec"].startswith("OK SUCCESS")),
         "exec_classes": {k: v for k, v in sorted(classes.items(), key=lambda kv: -kv[1])[:25]},
         "panic_sites_in_source": site_count(), "real_mempool_admission_cases": npool,
+        "oracle_hypothesis_checks": {"strings_json_roundtrip": sum(len(o.get("strs") or []) for o in obs),
+                                     "records_size_bounds": 2 * len(obs), "contradictions": len(hyp_bad)},
     }
     for i in (0, len(cases) // 2, len(cases) - 1):
         ctx.sample({"case": {k: cases[i][k] for k in ("rcpt", "amt", "snd", "fork")}, "payload": base64.b64decode(cases[i]["p"])[:120].decode(errors="replace"),
